@@ -1,10 +1,16 @@
 \* Flush quick: destination trees of depth <= 2 over 3 leaf destinations (each used at most once), none,
-\* And and six wrappers; every assignment of flush answers; caller timeout 1024 ms. Exhaustive.
+\* And and six wrappers; every assignment of flush answers;
+\* 17 entries (direct / erased / Runtime / Default / Setup::init_runtime, map_emitter, and_emit_to / Init, InitGuard (drop, unwind),
+\* slot.get on an own slot, uninitialised and lost slot / emit::blocking_flush and guard on the shared slot); 
+\* direct / erased / runtime with every tree, the other entries with the trees of depth <= 1; caller timeout 1024 ms. Exhaustive.
 SPECIFICATION Spec
 CONSTANTS
     LeafIds = {1, 2, 3}
     Depth = 2
     Timeout = 1024
+    Entries = {"direct", "erased", "runtime", "default_rt", "init_runtime", "map_emitter", "and_emit_to", "init_flush", "init_get", "slot_get", "guard_drop", "guard_unwind", "uninit", "lost", "shared", "shared_guard", "shared_uninit"}
+    DeepEntries = {"direct", "erased", "runtime"}
+    ShallowDepth = 1
     Emit = TRUE
 INVARIANTS FlushIsConjunction EveryLeafOnceInOrder BudgetRespected LeafGetsTime
 ACTION_CONSTRAINT EmitReplay
